@@ -314,6 +314,10 @@ local function walk(v, path)
   end
 end
 walk(_G, "")
+for _, n in ipairs({"os", "io", "package", "debug", "coroutine", "channel", "string", "table", "math", "json", "_G"}) do
+  local ok, m = pcall(require, n)
+  if ok and (type(m) == "table" or type(m) == "function") then walk(m, "<require:" .. n .. ">") end
+end
 local prim = { {"string", ""}, {"number", 0}, {"boolean", true}, {"function", walk}, {"nil", nil} }
 for _, p in ipairs(prim) do
   local mt = getmetatable(p[2])
@@ -376,7 +380,18 @@ func encHasToken(o outcome, _ string) (bool, string) {
 	return false, ""
 }
 
+// requirePrelude: the libraries a script may obtain through require() replace the globals before the probe
+// body runs (a library opened "restricted" as a global may still sit complete in the registry's _LOADED table,
+// which the base library's require returns without consulting any loader).
+const requirePrelude = `for _, n in ipairs({"os", "io", "package", "debug"}) do local ok, m = pcall(require, n) if ok and type(m) == "table" then _G[n] = m end end `
+
+// probes: every functional probe twice — on the globals as they are, and after requirePrelude.
 func probes(dir string) []probe {
+	out := probesVariant(dir, "", "", "")
+	return append(out, probesVariant(dir, "/via-require", "-rq", requirePrelude)...)
+}
+
+func probesVariant(dir, nameSuffix, fileSuffix, prelude string) []probe {
 	q := func(s string) string { return fmt.Sprintf("%q", s) }
 	canary := filepath.Join(dir, "canary.lua")
 	fileGone := func(name string) func(o outcome, dir string) (bool, string) {
@@ -395,7 +410,7 @@ func probes(dir string) []probe {
 			return false, ""
 		}
 	}
-	return []probe{
+	list := []probe{
 		{"dofile", `return {r = dofile(` + q(canary) + `)}`, encHasToken},
 		{"loadfile", `local f = loadfile(` + q(canary) + `) return {r = f and f()}`, encHasToken},
 		{"require", `package = package or {} package.path = ` + q(dir+"/?.lua") + ` package.loaded = package.loaded or {} package.preload = package.preload or {}
@@ -403,11 +418,11 @@ package.loaders = package.loaders or {} return {r = require("canarymod")}`, encH
 		{"io.open", `local f = io.open(` + q(canary) + `) return {r = f:read("*a")}`, encHasToken},
 		{"io.lines", `for l in io.lines(` + q(canary) + `) do return {r = l} end`, encHasToken},
 		{"io.popen", `local p = io.popen("echo ` + canaryToken + `") return {r = p:read("*a")}`, encHasToken},
-		{"io.open(w)", `local f = io.open(` + q(filepath.Join(dir, "written-by-io")) + `, "w") f:write("x") f:close() return {}`, fileExists("written-by-io")},
+		{"io.open(w)", `local f = io.open(` + q(filepath.Join(dir, "written-by-io"+fileSuffix)) + `, "w") f:write("x") f:close() return {}`, fileExists("written-by-io" + fileSuffix)},
 		{"os.getenv", `return {r = os.getenv(` + q(canaryEnvName) + `)}`, encHasToken},
-		{"os.execute", `os.execute("touch " .. ` + q(filepath.Join(dir, "touched-by-os-execute")) + `) return {}`, fileExists("touched-by-os-execute")},
-		{"os.remove", `os.remove(` + q(filepath.Join(dir, "victim-remove")) + `) return {}`, fileGone("victim-remove")},
-		{"os.rename", `os.rename(` + q(filepath.Join(dir, "victim-rename")) + `, ` + q(filepath.Join(dir, "renamed")) + `) return {}`, fileGone("victim-rename")},
+		{"os.execute", `os.execute("touch " .. ` + q(filepath.Join(dir, "touched-by-os-execute"+fileSuffix)) + `) return {}`, fileExists("touched-by-os-execute" + fileSuffix)},
+		{"os.remove", `os.remove(` + q(filepath.Join(dir, "victim-remove"+fileSuffix)) + `) return {}`, fileGone("victim-remove" + fileSuffix)},
+		{"os.rename", `os.rename(` + q(filepath.Join(dir, "victim-rename"+fileSuffix)) + `, ` + q(filepath.Join(dir, "renamed"+fileSuffix)) + `) return {}`, fileGone("victim-rename" + fileSuffix)},
 		{"os.tmpname", `return {r = os.tmpname()}`, func(o outcome, _ string) (bool, string) {
 			if o.Kind == "table" && strings.Contains(o.Enc, "/") {
 				return true, "os.tmpname returned a file system path: " + clip(o.Enc, 100)
@@ -433,6 +448,11 @@ package.loaders = package.loaders or {} return {r = require("canarymod")}`, encH
 			return false, ""
 		}},
 	}
+	for i := range list {
+		list[i].Name += nameSuffix
+		list[i].Script = prelude + list[i].Script
+	}
+	return list
 }
 
 func prepareCanaries(dir string) error {
@@ -445,12 +465,12 @@ func prepareCanaries(dir string) error {
 			return err
 		}
 	}
-	for _, f := range []string{"victim-remove", "victim-rename"} {
+	for _, f := range []string{"victim-remove", "victim-rename", "victim-remove-rq", "victim-rename-rq"} {
 		if err := os.WriteFile(filepath.Join(dir, f), []byte("x"), 0o644); err != nil {
 			return err
 		}
 	}
-	for _, f := range []string{"written-by-io", "touched-by-os-execute", "renamed"} {
+	for _, f := range []string{"written-by-io", "touched-by-os-execute", "renamed", "written-by-io-rq", "touched-by-os-execute-rq", "renamed-rq"} {
 		_ = os.Remove(filepath.Join(dir, f))
 	}
 	return nil
@@ -787,7 +807,7 @@ func judgeSurface(r *lib.Report, st *stage, so outcome, prs []probe, pouts []out
 	confirmed := map[string]string{}
 	for i, p := range prs {
 		ok, why := p.confirm(pouts[i], dir)
-		base := strings.TrimSuffix(p.Name, "(w)")
+		base := strings.Replace(p.Name, "(w)", "", 1)
 		if ok {
 			confirmed[base] = why
 			r.Outcome("capability: " + p.Name + " CONFIRMED")
@@ -802,6 +822,19 @@ func judgeSurface(r *lib.Report, st *stage, so outcome, prs []probe, pouts []out
 	}
 	var unreviewed []string
 	for _, f := range walk.Functions {
+		if strings.HasPrefix(f, "<require:") {
+			// a library handed out by require(): judged under the library's own name
+			nf := strings.Replace(strings.TrimPrefix(f, "<require:"), ">", "", 1)
+			switch {
+			case allowList[nf]:
+				r.Outcome("surface: allow-listed function reachable (through require)")
+			case confirmed[nf+"/via-require"] != "":
+				// reported above
+			default:
+				unreviewed = append(unreviewed, f)
+			}
+			continue
+		}
 		switch {
 		case allowList[f]:
 			r.Outcome("surface: allow-listed function reachable")
@@ -1009,7 +1042,7 @@ func Replay(r *lib.Report, raw json.RawMessage) {
 			ok, why := p.confirm(o, dir)
 			say("step 3: capability exercised: %v %s", ok, why)
 			if ok {
-				st.add("C16/capability/"+strings.TrimSuffix(p.Name, "(w)"), i, "functional probe succeeded: "+why+"\nprobe script:\n"+p.Script, rc)
+				st.add("C16/capability/"+strings.Replace(p.Name, "(w)", "", 1), i, "functional probe succeeded: "+why+"\nprobe script:\n"+p.Script, rc)
 			}
 		}
 	case "isolation":
